@@ -64,6 +64,10 @@ let build_arg (items : Sx.t list) : UsageModel.harg =
     | "x-hide-env" -> a := { !a with ha_hide_env = true }
     | "x-hide-env-values" -> a := { !a with ha_hide_env_values = true }
     | "x-hide-default" -> a := { !a with ha_hide_default = true }
+    | "requires" -> a := { !a with ha_requires = !a.ha_requires @ Stdlib.List.map (fun x -> (Cmd.PIsPresent, bs x)) args }
+    | "requires_if" -> (match args with
+        | [v; i] -> a := { !a with ha_requires = !a.ha_requires @ [(Cmd.PEquals (bs v), bs i)] }
+        | _ -> failwith "requires_if")
     | "x-pv" ->
       let pv = ref { pv_name = bs (hd args); pv_help = None; pv_hide = false } in
       Stdlib.List.iter (fun e -> match e with
@@ -93,16 +97,24 @@ let rec build_cmd (items : Sx.t list) : UsageModel.hcmd =
         | "disable_version_flag" -> gset (fun s -> { s with hs_no_version_flag = true })
         | "disable_help_subcommand" -> gset (fun s -> { s with hs_no_help_sub = true })
         | "subcommand_required" -> c := { !c with hc_sub_required = true }
+        | "subcommand_negates_reqs" -> c := { !c with hc_negates_reqs = true }
+        | "args_conflicts_with_subcommands" -> c := { !c with hc_args_conflicts = true }
+        | "allow_external_subcommands" -> c := { !c with hc_allow_external = true }
         | "hide" -> c := { !c with hc_hide = true }
         | x -> failwith ("help area: unsupported setting " ^ x)) l
     | "arg" ->
       if !subs <> [] then failwith "help specs list every arg before the subcommands";
-      args := !args @ [build_arg l]
+      args := !args @ [BArg (build_arg l)]
+    | "x-next-heading" -> args := !args @ [BNextHeading (match l with h :: _ -> Some (bs h) | [] -> None)]
     | "sub" -> subs := !subs @ [build_cmd (Sx.args (hd l))]
+    | "group" -> c := { !c with hc_groups = !c.hc_groups @ [Spec.build_group l] }
+    | "x-sub-valname" -> c := { !c with hc_sub_value_name = Some (bs (hd l)) }
+    | "x-sub-heading" -> c := { !c with hc_sub_heading = Some (bs (hd l)) }
+    | "x-template" -> c := { !c with hc_template = Some (bs (hd l)) }
     | "x-next-line" -> gset (fun s -> { s with hs_next_line = true })
     | "x-order" -> c := { !c with hc_disp_ord = Some (n (hd l)) }
     | x -> failwith ("help area: unsupported cmd item " ^ x)) (Stdlib.List.tl items);
-  cmd_with !c !args !subs
+  cmd_with_items !c !args !subs
 
 let dw (s : BinNums.coq_N list) = UsageModel.len s
 
@@ -134,6 +146,42 @@ let show_screen (s : HelpModel.screen) =
     " (sec " ^ hex sec.s_title ^ String.concat "" (Stdlib.List.map (fun r -> " " ^ show_row r) sec.s_rows) ^ ")") s.scr_sections in
   Printf.sprintf "ok (about %s) %s%s" about (show_usage s.scr_usage) (String.concat "" secs)
 
+(* a rendered custom template, projected like the harness projects the text: the about, the usage tokens, and
+   one `(sec TITLE rows..)` per row-writing tag, TITLE being the last non-empty line (without its colon) of the
+   literal text in front of the tag *)
+let last_title (s : BinNums.coq_N list) : string =
+  let txt = Stdlib.String.concat "" (Stdlib.List.map (fun c -> Stdlib.String.make 1 (Char.chr c)) (ints_of_bs s)) in
+  let lines = Stdlib.List.filter (fun l -> Stdlib.String.trim l <> "") (Stdlib.String.split_on_char '\n' txt) in
+  match Stdlib.List.rev lines with
+  | l :: _ ->
+    let l = Stdlib.String.trim l in
+    let l = if l <> "" && l.[Stdlib.String.length l - 1] = ':' then Stdlib.String.sub l 0 (Stdlib.String.length l - 1) else l in
+    hex (bs_of_ints (Stdlib.List.init (Stdlib.String.length l) (fun i -> Char.code l.[i])))
+  | [] -> "x"
+
+let show_template (ps : HelpModel.tpiece list) =
+  let open HelpModel in
+  let about = ref "none" and usage = ref "(nousage)" and secs = Buffer.create 256 and prev = ref [] in
+  Stdlib.List.iter (fun p ->
+    (match p with
+     | TPText s -> prev := s
+     | TPAbout (Some a) -> (match split_sp a with t :: _ -> about := hex t | [] -> ())
+     | TPAbout None -> ()
+     | TPUsage u -> usage := show_usage u
+     | TPOptions rows | TPPositionals rows | TPSubcommands rows ->
+       Buffer.add_string secs (" (sec " ^ last_title !prev ^ String.concat "" (Stdlib.List.map (fun r -> " " ^ show_row r) rows) ^ ")")
+     | TPAllArgs ss ->
+       Stdlib.List.iter (fun sec ->
+         Buffer.add_string secs (" (sec " ^ hex sec.s_title ^ String.concat "" (Stdlib.List.map (fun r -> " " ^ show_row r) sec.s_rows) ^ ")")) ss
+     | _ -> ())) ps;
+  Printf.sprintf "ok (about %s) %s%s" !about !usage (Buffer.contents secs)
+
+let render_any (c : UsageModel.hcmd) (use_long : bool) width =
+  match HelpModel.render_help_template dw c use_long width with
+  | None -> "PANIC"
+  | Some (Some ps) -> show_template ps
+  | Some None -> (match HelpModel.render_help dw c use_long width with Some s -> show_screen s | None -> "PANIC")
+
 let has_help_arg (c : UsageModel.hcmd) =
   Stdlib.List.exists (fun a -> a.UsageModel.ha_id = UsageModel.s_help) c.UsageModel.hc_args
 
@@ -143,8 +191,8 @@ let run_help (a : Sx.t list) : string =
     let c = build_cmd (Sx.args cmd) in
     let width = n (hd (Sx.args w)) in
     (match hd (Sx.args which) with
-     | Sx.Sym "short" -> (match HelpModel.render_help dw c false width with Some s -> show_screen s | None -> "PANIC")
-     | Sx.Sym "long" -> (match HelpModel.render_help dw c true width with Some s -> show_screen s | None -> "PANIC")
+     | Sx.Sym "short" -> render_any c false width
+     | Sx.Sym "long" -> render_any c true width
      | Sx.Sym "usage" -> (match HelpModel.render_usage c with Some u -> "ok " ^ show_usage u | None -> "PANIC")
      | Sx.L (Sx.Sym kind :: path) ->
        let path = Stdlib.List.map bs path in
